@@ -21,7 +21,7 @@ class Unit:
     functions: qualified names of repository functions this unit puts under contract.
     kind: 'contract' | 'lemma' | 'closed' | 'frame' | 'bounded'"""
 
-    def __init__(self, name, fn, functions=(), kind="contract", props=(), budget_s=600, args=()):
+    def __init__(self, name, fn, functions=(), kind="contract", props=(), budget_s=150, args=()):
         self.name, self.fn, self.functions, self.kind = name, fn, tuple(functions), kind
         self.props = tuple(props)
         self.budget_s = budget_s
@@ -128,6 +128,7 @@ def _run_unit(modname, unit_name, tier, seed):
         unit = mod.UNITS[unit_name]
         res["kind"] = unit.kind
         ctx = UnitCtx(unit, tier, seed)
+        ctx.ex.deadline = time.time() + (unit.budget_s if tier == "quick" else 4 * unit.budget_s)
         unit.fn(ctx, *unit.args)
         ex = ctx.ex
         res["obligations"] = [o.as_dict() for o in ex.obligations]
@@ -144,7 +145,14 @@ def _run_unit(modname, unit_name, tier, seed):
         res["functions"] = _source_hashes(unit.functions)
         res["path_log"] = [list(x) for x in ex.path_log[:400]]
     except Exception:
+        # an engine error while following (possibly edited) source: the unit is undecided, never 'held';
+        # the report falls back to a concrete refutation on the real code and otherwise exits 3
         res["crashed"] = traceback.format_exc()
+        try:
+            res["functions"] = _source_hashes(mod.UNITS[unit_name].functions)
+            res["obligations"] = [o.as_dict() for o in ctx.ex.obligations]
+        except Exception:
+            pass
     res["seconds"] = time.time() - t0
     return res
 
